@@ -267,16 +267,16 @@ theorem Mk.den {t : Tbl} (hw : WF t) {i : Nat} {a b r : Int} (hm : Mk t i a b r)
 /-! ### the structural relation between the tables before and during/after the swap -/
 
 /-- `t'` is the table `t` in which the levels `x` and `x+1` have been exchanged, except for the
-x-nodes in `pend`, which depend on `x+1` and still carry their old triple. -/
+nodes in `pend` (of these two levels), which still carry their old triple. -/
 structure SwapRel (t t' : Tbl) (x : Nat) (pend : Nat → Prop) : Prop where
   nvars : t'.nvars = t.nvars
   /-- nodes of other levels are untouched -/
   other : ∀ u n, t.node? u = some n → n.lvl ≠ x → n.lvl ≠ x + 1 → t'.node? u = some n
   /-- nodes of the lower level moved up -/
-  up : ∀ u n, t.node? u = some n → n.lvl = x + 1 → t'.node? u = some ⟨x, n.lo, n.hi⟩
+  up : ∀ u n, t.node? u = some n → n.lvl = x + 1 → ¬ pend u → t'.node? u = some ⟨x, n.lo, n.hi⟩
   /-- upper nodes that do not depend on the lower variable were relabelled -/
   indep : ∀ u n, t.node? u = some n → n.lvl = x → t.levelOf n.lo ≠ x + 1 → t.levelOf n.hi ≠ x + 1 →
-    t'.node? u = some ⟨x + 1, n.lo, n.hi⟩
+    ¬ pend u → t'.node? u = some ⟨x + 1, n.lo, n.hi⟩
   /-- upper nodes that depend on the lower variable and have been rebuilt -/
   dep : ∀ u n, t.node? u = some n → n.lvl = x → (t.levelOf n.lo = x + 1 ∨ t.levelOf n.hi = x + 1) →
     ¬ pend u →
@@ -297,15 +297,15 @@ variable {t t' : Tbl} {x : Nat} {pend : Nat → Prop}
 /-- every node number of the old table is still a node number -/
 theorem node_some (h : SwapRel t t' x pend)
     {u : Nat} {n : Nd} (hn : t.node? u = some n) : ∃ n', t'.node? u = some n' := by
+  by_cases hpd : pend u
+  · exact ⟨_, h.pending u n hn hpd⟩
   by_cases h1 : n.lvl = x + 1
-  · exact ⟨_, h.up u n hn h1⟩
+  · exact ⟨_, h.up u n hn h1 hpd⟩
   · by_cases h2 : n.lvl = x
-    · by_cases hpd : pend u
-      · exact ⟨_, h.pending u n hn hpd⟩
-      · by_cases h3 : t.levelOf n.lo = x + 1 ∨ t.levelOf n.hi = x + 1
-        · obtain ⟨p, q, hh, _⟩ := h.dep u n hn h2 h3 hpd
-          exact ⟨_, hh⟩
-        · exact ⟨_, h.indep u n hn h2 (fun e => h3 (Or.inl e)) (fun e => h3 (Or.inr e))⟩
+    · by_cases h3 : t.levelOf n.lo = x + 1 ∨ t.levelOf n.hi = x + 1
+      · obtain ⟨p, q, hh, _⟩ := h.dep u n hn h2 h3 hpd
+        exact ⟨_, hh⟩
+      · exact ⟨_, h.indep u n hn h2 (fun e => h3 (Or.inl e)) (fun e => h3 (Or.inr e)) hpd⟩
     · exact ⟨_, h.other u n hn h2 h1⟩
 
 theorem mem (h : SwapRel t t' x pend) {c : Int} (hc : t.Mem c) : t'.Mem c := by
@@ -336,17 +336,17 @@ theorem lvl_min (h : SwapRel t t' x pend) {c : Int} (hc : t.Mem c) :
     · exact absurd hc h1
     · obtain ⟨n, hn⟩ := Option.isSome_iff_exists.mp hc
       rw [levelOf_node t c n h1 hn]
+      by_cases hpd : pend c.natAbs
+      · rw [levelOf_node t' c _ h1 (h.pending _ n hn hpd)]; omega
       by_cases h2 : n.lvl = x + 1
-      · rw [levelOf_node t' c _ h1 (h.up _ n hn h2)]; simp; omega
+      · rw [levelOf_node t' c _ h1 (h.up _ n hn h2 hpd)]; simp; omega
       · by_cases h3 : n.lvl = x
-        · by_cases hpd : pend c.natAbs
-          · rw [levelOf_node t' c _ h1 (h.pending _ n hn hpd)]; omega
-          · by_cases h4 : t.levelOf n.lo = x + 1 ∨ t.levelOf n.hi = x + 1
-            · obtain ⟨p, q, hh, _⟩ := h.dep _ n hn h3 h4 hpd
-              rw [levelOf_node t' c _ h1 hh]; simp; omega
-            · rw [levelOf_node t' c _ h1
-                (h.indep _ n hn h3 (fun e => h4 (Or.inl e)) (fun e => h4 (Or.inr e)))]
-              simp; omega
+        · by_cases h4 : t.levelOf n.lo = x + 1 ∨ t.levelOf n.hi = x + 1
+          · obtain ⟨p, q, hh, _⟩ := h.dep _ n hn h3 h4 hpd
+            rw [levelOf_node t' c _ h1 hh]; simp; omega
+          · rw [levelOf_node t' c _ h1
+              (h.indep _ n hn h3 (fun e => h4 (Or.inl e)) (fun e => h4 (Or.inr e)) hpd)]
+            simp; omega
         · rw [levelOf_node t' c _ h1 (h.other _ n hn h3 h2)]; omega
 
 end SwapRel
@@ -420,7 +420,7 @@ theorem swapRel_wf (hw : WFU t) (hyn : x + 1 < t.nvars) (h : SwapRel t t' x (fun
       have hne := hW.lo_ne_hi _ _ hn
       have hlt := hW.lvl_lt _ _ hn
       by_cases h1 : n.lvl = x + 1
-      · have := h.up u n hn h1
+      · have := h.up u n hn h1 (fun hf => hf)
         rw [this] at hn'; cases hn'
         simp only
         refine ⟨by omega, hmem mlo, hmem mhi, ?_, ?_, g2, hpos, hne⟩
@@ -441,7 +441,7 @@ theorem swapRel_wf (hw : WFU t) (hyn : x + 1 < t.nvars) (h : SwapRel t t' x (fun
             exact dep_p_ne_q hW hyn mlo mhi gl h3 habove hp hq
           · have hlo : t.levelOf n.lo ≠ x + 1 := fun e => h3 (Or.inl e)
             have hhi : t.levelOf n.hi ≠ x + 1 := fun e => h3 (Or.inr e)
-            have := h.indep u n hn h2 hlo hhi
+            have := h.indep u n hn h2 hlo hhi (fun hf => hf)
             rw [this] at hn'; cases hn'
             simp only
             refine ⟨by omega, hmem mlo, hmem mhi, ?_, ?_, g2, hpos, hne⟩
@@ -502,7 +502,7 @@ theorem swapRel_den (hw : WFU t) (hyn : x + 1 < t.nvars) (h : SwapRel t t' x (fu
         have ihhi := ih n.hi mhi (by omega) b
         rw [den_node t hW u n b h1 hn]
         by_cases c1 : n.lvl = x + 1
-        · rw [den_node t' hW' u _ _ h1 (h.up _ n hn c1), ihlo, ihhi]
+        · rw [den_node t' hW' u _ _ h1 (h.up _ n hn c1 (fun hf => hf)), ihlo, ihhi]
           simp [c1]
         · by_cases c2 : n.lvl = x
           · by_cases c3 : t.levelOf n.lo = x + 1 ∨ t.levelOf n.hi = x + 1
@@ -520,7 +520,7 @@ theorem swapRel_den (hw : WFU t) (hyn : x + 1 < t.nvars) (h : SwapRel t t' x (fu
               exact (shannon_exchange _ _ _ _ _ _).symm
             · have hlo : t.levelOf n.lo ≠ x + 1 := fun e => c3 (Or.inl e)
               have hhi : t.levelOf n.hi ≠ x + 1 := fun e => c3 (Or.inr e)
-              rw [den_node t' hW' u _ _ h1 (h.indep _ n hn c2 hlo hhi), ihlo, ihhi]
+              rw [den_node t' hW' u _ _ h1 (h.indep _ n hn c2 hlo hhi (fun hf => hf)), ihlo, ihhi]
               simp [c2]
           · rw [den_node t' hW' u _ _ h1 (h.other _ n hn c2 c1), ihlo, ihhi]
             simp [swp_other c2 c1]
